@@ -600,6 +600,14 @@ func (g *Gen) trCall(e *CCall, env *Env) (string, VType) {
 			ref = fmt.Sprintf("(s-arr %s)", x)
 		}
 		return fmt.Sprintf("(select %s %s)", g.heapGet(env.heap, g.allocRegion()), ref), goBool
+	case "isa":
+		// isa(x, T): the reference x was allocated as a struct of type T
+		x, _ := g.tr(e.Args[0], env)
+		vt, err := g.eng.resolveType(typeText(e.Args[1]), env.pkg)
+		if err != nil {
+			trFail("%v", err)
+		}
+		return fmt.Sprintf("(= (rtype %s) %d)", x, g.eng.typeTag(vt.Go)), goBool
 	case "istype":
 		x, _ := g.trAs(e.Args[0], env, "Iface")
 		vt, err := g.eng.resolveType(typeText(e.Args[1]), env.pkg)
